@@ -136,7 +136,7 @@ def _fresh_tracer(stub: _Threading):
 
 
 # ---------------------------------------------------------------- obligations
-def h_gate(k: int, via_proxy: bool, cur: int, active: int, active_none: bool, disabled: bool) -> bool:
+def h_gate(k: int, via_proxy: bool, cur: int, active: int, active_none: bool, disabled: bool, seen: bool) -> bool:
     """
     pre: 0 <= k < 14
     post: _
@@ -149,6 +149,15 @@ def h_gate(k: int, via_proxy: bool, cur: int, active: int, active_none: bool, di
         if tracer is None:
             return reach(False)
         target = tr.InstrumentationExecutionTracer(tracer) if via_proxy else tracer
+        if seen:
+            # the same event was already recorded by the then-active thread 1 (an already covered line, an
+            # already executed code object ...): the gate must not depend on whether the event is new
+            stub.ident = 1
+            tracer._current_thread_identifier = 1
+            try:
+                getattr(tracer, name)(*args)
+            except TracingAbortedException:
+                return reach(False)
         tracer._current_thread_identifier = None if active_none else active
         if disabled:
             tracer.disable()
@@ -157,6 +166,10 @@ def h_gate(k: int, via_proxy: bool, cur: int, active: int, active_none: bool, di
         try:
             getattr(target, name)(*args)
             aborted = False
+        except Exception as e:  # noqa: BLE001
+            # what a broad `except Exception:` in (uninstrumented) code called by the SUT would catch: the abort
+            # signal must not be catchable that way, and the callbacks raise nothing else on these arguments
+            return reach(not isinstance(e, TracingAbortedException) and False)
         except TracingAbortedException:
             aborted = True
         after = _snapshot(tracer.get_trace())
@@ -171,8 +184,8 @@ def h_gate(k: int, via_proxy: bool, cur: int, active: int, active_none: bool, di
                 return reach(False)
             # ... and the non-active thread is aborted (a disabled tracer may let its caller continue)
             return reach(aborted or disabled)
-        # the active thread records
-        return reach(after != before)
+        # the active thread records (an event that was already recorded may leave the trace as it is)
+        return reach(after != before or seen)
     finally:
         _restore()
 
